@@ -469,6 +469,19 @@ var takes = ev.NewCheck("C13", "smf-record-two-takes",
 	"rapid: two live streams recorded one after the other into the same file with SMF.RecordFrom, the file is written after each take (record - write - record - write); oracle: each written file passes the strict SMF parser, has one track per take so far, reads back equal, and every track holds exactly the channel messages of its take in order; non-trivial = both takes contain channel messages; cases run in parallel (each stop sleeps one second)",
 	func(t *rapid.T) TakesCase {
 		a, b := genCase("smf-fake")(t), genCase("smf-fake")(t)
+		// the second take was bounded for its own tempo and resolution: bound it for the ones used
+		// here (stated domain: every tick delta fits the format's maximum)
+		budget := float64(0x0FFFFFFF) * 60000 / (float64(a.Res) * a.BPM) * 0.99
+		var total float64
+		for _, ch := range b.Chunks {
+			total += float64(ch.Delta)
+		}
+		if total > budget {
+			f := budget / total
+			for i := range b.Chunks {
+				b.Chunks[i].Delta = int32(float64(b.Chunks[i].Delta) * f)
+			}
+		}
 		return TakesCase{Take1: a.Chunks, Take2: b.Chunks, BPM: a.BPM, Res: a.Res}
 	}, runTakes)
 
